@@ -21,6 +21,7 @@ import (
 	"sort"
 	"strconv"
 	"strings"
+	"sync"
 	"testing"
 	"unicode"
 	"unicode/utf8"
@@ -424,7 +425,8 @@ func callReqParam(cmd, logname, conn string, argv []string) (res vRes14, tid str
 	return res, t, ""
 }
 
-func (r *vRun) do14(in vIn14) {
+// mk14 runs one call and builds its event (no shared state: usable from several goroutines)
+func mk14(in vIn14) (ev vEv14, tid, errtext string) {
 	cmd, logname, conn := unhx(in.Cmd), unhx(in.Log), unhx(in.Conn)
 	argv := make([]string, len(in.Argv))
 	toks := make([]string, 0, 8)
@@ -444,24 +446,70 @@ func (r *vRun) do14(in vIn14) {
 	}
 	c, _ := lexCmd(cmd)
 	first := strings.SplitN(conn, " ", 2)[0]
-	ev := vEv14{Op: "reqparam", Cmd: c, Log: hx(logname), Conn: vConn{First: hx(first), Ipc: in.Ipc, Strict: ipStrictValid(first)},
+	ev = vEv14{Op: "reqparam", Cmd: c, Log: hx(logname), Conn: vConn{First: hx(first), Ipc: in.Ipc, Strict: ipStrictValid(first)},
 		Argv: vArgv{Toks: toks, Clean: clean}, Xok: in.Xok}
-	res, tid, errtext := callReqParam(cmd, logname, conn, argvIn)
-	ev.Res = res
+	ev.Res, tid, errtext = callReqParam(cmd, logname, conn, argvIn)
+	return ev, tid, errtext
+}
+
+func (r *vRun) add14(in vIn14, ev vEv14, tid, errtext string) {
 	r.calls14++
-	r.classes[in.Cls+"/"+c.Jk+"/"+strconv.FormatBool(res.Ok)]++
-	if res.Pan {
+	r.classes[in.Cls+"/"+ev.Cmd.Jk+"/"+strconv.FormatBool(ev.Res.Ok)]++
+	if ev.Res.Pan {
 		r.pan++
 		r.errtexts[errtext]++
 	}
 	r.n++
 	rec := vRec{Ev: "step", Tid: fmt.Sprintf("p%d", r.n), E: ev, Info: in}
 	r.tr.Emit(rec)
-	if res.Ok {
+	if ev.Res.Ok {
 		r.ok14++
 		r.tids = append(r.tids, tid)
 		if len(r.okIn) < 48 {
 			r.okIn = append(r.okIn, rec)
+		}
+	}
+}
+
+func (r *vRun) do14(in vIn14) {
+	ev, tid, errtext := mk14(in)
+	r.add14(in, ev, tid, errtext)
+}
+
+// conc14: g goroutines call NewReqParam at the same time, each with its own inputs; every call is an event
+func (r *vRun) conc14(rnd *mrand.Rand, g, rounds int) {
+	ins := make([][]vIn14, g)
+	for i := range ins {
+		ins[i] = make([]vIn14, rounds)
+		for j := range ins[i] {
+			ins[i][j] = randIn14(rnd)
+			ins[i][j].Cls = "conc:" + ins[i][j].Cls[2:]
+		}
+	}
+	type out struct {
+		ev      vEv14
+		tid, et string
+	}
+	outs := make([][]out, g)
+	start := make(chan struct{})
+	var wg sync.WaitGroup
+	for i := 0; i < g; i++ {
+		outs[i] = make([]out, rounds)
+		wg.Add(1)
+		go func(i int) {
+			defer wg.Done()
+			<-start
+			for j, in := range ins[i] {
+				ev, tid, et := mk14(in)
+				outs[i][j] = out{ev, tid, et}
+			}
+		}(i)
+	}
+	close(start)
+	wg.Wait()
+	for i := range outs {
+		for j, o := range outs[i] {
+			r.add14(ins[i][j], o.ev, o.tid, o.et)
 		}
 	}
 }
@@ -1026,6 +1074,8 @@ type vEvRt struct {
 	Dec   vD15    `json:"dec"`
 	Dec2  vD15    `json:"dec2"`
 	Xok   string  `json:"xok"`
+	Mode  string  `json:"mode"` // seq / hist / conc
+	Same  bool    `json:"same"` // hist: the same set encoded again later gave the same text
 }
 type vEvLeg struct {
 	Op    string  `json:"op"`
@@ -1091,33 +1141,166 @@ func attrsClean(a *message.Attributes) bool {
 type vInRt struct {
 	Attrs json.RawMessage `json:"attrs"` // the attribute set as JSON of message.Attributes (replay input)
 	Xok   string          `json:"xok"`
+	Mode  string          `json:"mode"`
+}
+
+// mkRt encodes and decodes one attribute set and builds the event (no shared state).  The decoded objects are
+// returned so that the caller can tamper with them (aliasing check).
+func mkRt(a *message.Attributes, xok, mode string) (ev vEvRt, info vInRt, text string, got []*message.Attributes) {
+	raw, _ := json.Marshal(a)
+	ev = vEvRt{Op: "rt", A: attrOfMessage(a), Clean: attrsClean(a), Wire: []vAtom{}, Dec: vD15{B: zeroAttr()}, Dec2: vD15{B: zeroAttr()}, Xok: xok, Mode: mode, Same: true}
+	text, ev.Enc = encode(a)
+	if ev.Enc.Ok {
+		var g1, g2 *message.Attributes
+		keep := func(f func(string) (*message.Attributes, error), dst **message.Attributes) func(string) (*message.Attributes, error) {
+			return func(t string) (*message.Attributes, error) {
+				x, err := f(t)
+				*dst = x
+				return x, err
+			}
+		}
+		ev.Dec = decodeWith(keep(message.Unmarshal, &g1), text)
+		ev.Dec2 = ev.Dec
+		if a.IfVer < 7 {
+			ev.Wire = atomize(text)
+			ev.Dec2 = decodeWith(keep(message.UnmarshalLegacy, &g2), text)
+		}
+		got = []*message.Attributes{g1, g2}
+	}
+	return ev, vInRt{Attrs: raw, Xok: xok, Mode: mode}, text, got
+}
+
+func (r *vRun) addRt(ev vEvRt, info vInRt) {
+	if ev.Enc.Pan || ev.Dec.Pan || ev.Dec2.Pan {
+		r.pan++
+	}
+	key := "rt/legacy"
+	if ev.A.IfVer >= 7 {
+		key = "rt/json"
+	}
+	r.classes[key+"/"+ev.Mode+"/"+strconv.FormatBool(ev.Enc.Ok)+"/"+strconv.FormatBool(ev.Dec.Ok)]++
+	r.emit("r", ev, info)
 }
 
 func (r *vRun) doRt(a *message.Attributes, xok string) {
 	if !fitsTLC(a.IfVer) {
 		return
 	}
-	raw, _ := json.Marshal(a)
-	ev := vEvRt{Op: "rt", A: attrOfMessage(a), Clean: attrsClean(a), Wire: []vAtom{}, Dec: vD15{B: zeroAttr()}, Dec2: vD15{B: zeroAttr()}, Xok: xok}
-	text, enc := encode(a)
-	ev.Enc = enc
-	if enc.Ok {
-		ev.Dec = decodeWith(message.Unmarshal, text)
-		ev.Dec2 = ev.Dec
-		if a.IfVer < 7 {
-			ev.Wire = atomize(text)
-			ev.Dec2 = decodeWith(message.UnmarshalLegacy, text)
+	ev, info, _, _ := mkRt(a, xok, "seq")
+	r.addRt(ev, info)
+}
+
+// tamper changes everything reachable from a decoded attribute set; a later decode must not see it
+func tamper(a *message.Attributes) {
+	if a == nil {
+		return
+	}
+	a.Username, a.Hostname, a.SSHClientVersion, a.HardKey, a.Touch2SSH, a.IfVer = "TAMPERED", "TAMPERED", "0.0", !a.HardKey, !a.Touch2SSH, 99
+	if a.TouchlessSudo != nil {
+		a.TouchlessSudo.Hosts, a.TouchlessSudo.Time, a.TouchlessSudo.IsFirefighter = "TAMPERED", 424242, !a.TouchlessSudo.IsFirefighter
+	}
+	for k := range a.Exts {
+		a.Exts[k] = "TAMPERED"
+	}
+	if a.Exts != nil {
+		a.Exts["TAMPERED"] = true
+	}
+}
+
+// doRtHist: history independence.  The set is encoded and decoded, the decoded objects are tampered with, other
+// sets are encoded and decoded in between, then the same set is encoded and decoded again: both rounds are
+// ordinary round-trip events; the second one also says whether the text came out the same.
+func (r *vRun) doRtHist(a *message.Attributes, others []*message.Attributes) {
+	if !fitsTLC(a.IfVer) {
+		return
+	}
+	ev1, info1, text1, got := mkRt(a, "na", "hist")
+	for _, g := range got {
+		tamper(g)
+	}
+	for _, o := range others {
+		_, _, _, g := mkRt(o, "na", "hist")
+		for _, x := range g {
+			tamper(x)
 		}
 	}
-	if ev.Enc.Pan || ev.Dec.Pan || ev.Dec2.Pan {
-		r.pan++
+	ev2, info2, text2, _ := mkRt(a, "na", "hist")
+	ev2.Same = text1 == text2
+	r.addRt(ev1, info1)
+	r.addRt(ev2, info2)
+}
+
+// concRt: g goroutines encode and decode their own, pairwise distinct attribute sets at the same time; every round
+// is an ordinary round-trip event.  first (replay) gives sets that goroutine 0 uses.
+func (r *vRun) concRt(rnd *mrand.Rand, g, rounds int, first []*message.Attributes) {
+	sets := make([][]*message.Attributes, g)
+	for i := range sets {
+		sets[i] = make([]*message.Attributes, rounds)
+		for j := range sets[i] {
+			var a *message.Attributes
+			if i == 0 && len(first) > 0 {
+				c := *first[j%len(first)]
+				a = &c
+			} else {
+				a = randSet(rnd)
+				for !fitsTLC(a.IfVer) {
+					a = randSet(rnd)
+				}
+				if rnd.Intn(4) > 0 && a.IfVer >= 7 { // mostly the legacy format
+					a.IfVer = rnd.Intn(7)
+					a = legacyCleanSet(a)
+				}
+				if a.Username != "" { // pairwise distinct across goroutines and rounds
+					a.Username = fmt.Sprintf("g%dr%d-%s", i, j, a.Username)
+				}
+				if a.Hostname != "" {
+					a.Hostname = fmt.Sprintf("h%d.%d.%s", i, j, a.Hostname)
+				}
+			}
+			sets[i][j] = a
+		}
 	}
-	key := "rt/legacy"
-	if a.IfVer >= 7 {
-		key = "rt/json"
+	type out struct {
+		ev   vEvRt
+		info vInRt
 	}
-	r.classes[key+"/"+strconv.FormatBool(enc.Ok)+"/"+strconv.FormatBool(ev.Dec.Ok)]++
-	r.emit("r", ev, vInRt{Attrs: raw, Xok: xok})
+	outs := make([][]out, g)
+	start := make(chan struct{})
+	var wg sync.WaitGroup
+	for i := 0; i < g; i++ {
+		outs[i] = make([]out, rounds)
+		wg.Add(1)
+		go func(i int) {
+			defer wg.Done()
+			<-start
+			for j, a := range sets[i] {
+				ev, info, _, _ := mkRt(a, "na", "conc")
+				outs[i][j] = out{ev, info}
+			}
+		}(i)
+	}
+	close(start)
+	wg.Wait()
+	for i := range outs {
+		for _, o := range outs[i] {
+			r.addRt(o.ev, o.info)
+		}
+	}
+}
+
+// legacyCleanSet makes the text values of a set fit the legacy format (no white space, no '@')
+func legacyCleanSet(a *message.Attributes) *message.Attributes {
+	c := func(s string) string {
+		if s == "" {
+			return s
+		}
+		return strings.ToValidUTF8(legacyClean(s), "u")
+	}
+	a.SSHClientVersion, a.Username, a.Hostname = c(a.SSHClientVersion), c(a.Username), c(a.Hostname)
+	if a.TouchlessSudo != nil {
+		a.TouchlessSudo.Hosts = c(a.TouchlessSudo.Hosts)
+	}
+	return a
 }
 
 type vInText struct {
@@ -1420,6 +1603,11 @@ type vPlan struct {
 	Cases   []vPlanCase `json:"cases"`
 	Random  int         `json:"random"`
 	Replays []vReplay   `json:"replays"`
+	Conc    struct {
+		G      int `json:"g"`
+		Rounds int `json:"rounds"`
+	} `json:"conc"`
+	Hist int `json:"hist"`
 }
 
 func mustUn(b []byte, v interface{}) {
@@ -1485,6 +1673,14 @@ func TestVerifReqParam(t *testing.T) {
 			run.doDecode(randDecodeTextB(rnd), "na", "B:dec")
 		}
 	}
+	for i := 0; i < plan.Hist && plan.Prop == "C15"; i++ {
+		others := make([]*message.Attributes, 1+rnd.Intn(3))
+		for j := range others {
+			others[j] = randSet(rnd)
+		}
+		run.doRtHist(randSet(rnd), others)
+	}
+	var concFirst []*message.Attributes
 	for _, rp := range plan.Replays {
 		switch rp.E.Op {
 		case "reqparam":
@@ -1504,7 +1700,14 @@ func TestVerifReqParam(t *testing.T) {
 			mustUn(rp.Info, &in)
 			a := &message.Attributes{}
 			mustUn(in.Attrs, a)
-			run.doRt(a, in.Xok)
+			switch in.Mode {
+			case "conc":
+				concFirst = append(concFirst, a)
+			case "hist":
+				run.doRtHist(a, []*message.Attributes{randSet(rnd), randSet(rnd)})
+			default:
+				run.doRt(a, in.Xok)
+			}
 		case "declegacy":
 			var in vInText
 			mustUn(rp.Info, &in)
@@ -1513,6 +1716,13 @@ func TestVerifReqParam(t *testing.T) {
 			var in vInText
 			mustUn(rp.Info, &in)
 			run.doDecode(unhx(in.Text), in.Xok, in.Cls)
+		}
+	}
+	if plan.Conc.G > 0 && (len(plan.Replays) == 0 || len(concFirst) > 0) {
+		if plan.Prop == "C14" {
+			run.conc14(rnd, plan.Conc.G, plan.Conc.Rounds)
+		} else {
+			run.concRt(rnd, plan.Conc.G, plan.Conc.Rounds, concFirst)
 		}
 	}
 	if plan.Prop == "C14" && run.calls14 > 0 {
